@@ -198,6 +198,10 @@ def gen_table(rnd, lay, dec):
         if r < 0.05:
             rows.append([])                                   # an empty line
             continue
+        if r < 0.11:
+            # a row of the right width whose cells are all empty or blank (spreadsheet padding, a separator row): malformed on its own
+            rows.append([rnd.choice(['', '', ' ', '  ']) for _ in lay.roles] + ([''] if rnd.random() < 0.3 else []))
+            continue
         cells = []
         for role in lay.roles:
             if role == 'date':
@@ -208,9 +212,9 @@ def gen_table(rnd, lay, dec):
                 cells.append(rnd.choice(['', 'n/a', '12.50', 'x,y']))
             else:
                 cells.append(_rand_text(rnd))
-        if r < 0.13:
+        if r < 0.18:
             cells = cells[:rnd.randrange(1, len(cells))] if len(cells) > 1 else cells      # a short row
-        elif r < 0.22:
+        elif r < 0.26:
             cells = cells + [rnd.choice(['', 'extra', '9.99'])] * rnd.choice([1, 2])       # a long row
         rows.append(cells)
     return rows
